@@ -522,6 +522,7 @@ def fit_newton_cg(
 
 
 def except_result(fcn, ndf):
+    fcn.vm.remove_bound()  # as the regular return does
     params = fcn.vm.get_all_dic()
     return FitResult(
         params, fcn, float(fcn.cached_nll), ndf=ndf, success=False
